@@ -15,6 +15,8 @@ RULE = (
     "in arbitrary lines / planes, exercising compute_tangent / compute_normal plane fitting). Oracle: volumes and "
     "areas unchanged, cell and face centres mapped by the motion, normals mapped by the rotation (in every dimension the "
     "normal is determined by face, area and outward side, so equality - not only up to sign - is required); rtol 1e-9. "
+    "For 1-d and 2-d grids map_geometry.map_grid of the moved grid must in addition return an isometric copy of the original "
+    "geometry in g.dim local coordinates (distances between centres / nodes, normal lengths, R orthogonal). "
     "Non-trivial = dim>=2 or non-axis-aligned rotation; distinct = hash of spec."
 )
 BUDGET = {"quick": {"cases": 2400, "seconds": 40}, "thorough": {"cases": 150000, "seconds": 1200}}
@@ -29,7 +31,7 @@ REQUIRED = {"dim1": 0.1, "dim2": 0.1, "dim3": 0.1, "rot-axis": 0.1, "rot-random"
 
 @st.composite
 def _spec(draw, tier):
-    g = draw(grid_spec(rigid=False, gmsh=(tier == "thorough"), scales=True, arrow=True))
+    g = draw(grid_spec(rigid=False, gmsh=(tier == "thorough"), scales=True, arrow=True, tri_user=True))
     r = draw(rigid_spec(identity_ok=False))
     return {"grid": g, "motion": r}
 
@@ -62,6 +64,21 @@ def check(spec):
     if g0.dim > 0:
         require_close(g1.face_normals, R @ g0.face_normals, "normals", rtol=rel_round * max(g0.dim - 1, 1), atol=0.0,
                       scale=float(np.abs(g0.face_normals).max()), what="face normals vs R n")
+    if g0.dim in (1, 2):
+        # The fitting path for embedded grids: the local coordinates of the moved grid are an isometric copy of the
+        # original geometry (distances between all centres and nodes, lengths of the normals), R is a rotation.
+        import porepy as pp
+        cc, fn, fc, Rm, act, nd = pp.map_geometry.map_grid(g1)
+        require(int(np.sum(act)) == g0.dim and cc.shape[0] == g0.dim, "map-grid-active-dims", f"active {act}")
+        require_close(Rm @ Rm.T, np.eye(3), "map-grid-rotation", rtol=0.0, atol=1e-9, what="R R^T of map_grid")
+        P1 = np.hstack([cc, fc, nd])
+        P0 = np.hstack([g0.cell_centers, g0.face_centers, g0.nodes])
+        k = min(P0.shape[1], 40)
+        D1 = np.linalg.norm(P1[:, :, None] - P1[:, None, :k], axis=0)
+        D0 = np.linalg.norm(P0[:, :, None] - P0[:, None, :k], axis=0)
+        require_close(D1, D0, "map-grid-isometry", rtol=0.0, atol=10 * atol_x, what="distances in local coordinates")
+        require_close(np.linalg.norm(fn, axis=0), g0.face_areas, "map-grid-normals", rtol=rel_round * 10, atol=0.0,
+                      what="lengths of mapped normals vs face areas")
     ax = np.abs(np.asarray(m["axis"], dtype=float))
     axis_aligned = np.count_nonzero(ax) == 1
     near_pi = abs(abs(m["angle"]) - np.pi) < 2e-3 and not axis_aligned
